@@ -126,6 +126,17 @@ M = {
                                'EDATE rejects date-only values again (the repaired defect)'),
     'c02-empty-sheet-prefix-accepted': ('C02', [(SRC + 'tokens/regexp_tokens/__init__.py', "regexp = r'((\\'([^\\'!]+?)\\'|(\\w+?))!)?\\$?([A-Z]+)\\$?(\\d+)'", "regexp = r'((\\'([^\\'!]*?)\\'|(\\w*?))!)?\\$?([A-Z]+)\\$?(\\d+)'")],
                                         '=!A1 and =\'\'!A1 read the own sheet again (the repaired defect)'),
+    'c18-text-cell-with-equals-as-formula': ('C18', [(SRC + 'translators/cell_translator.py', " and not isinstance(cell.value, TextCellValue):", ":")],
+                                             'a cell stored as text whose text starts with = is translated as a formula again (the repaired defect)'),
+    'c04-none-override-leaks': ('C04', [(CTX, "return self.EmptyCell() if value is None else value", "return value"), (ABS, "return self.EmptyCell() if value is None else value", "return value")],
+                                'an override without a value hands None to formulas again (the repaired defect)'),
+    'c12-date-cell-vs-serial-criterion': ('C12', [(CTX, "                elif isinstance(cell, datetime.datetime):\n                    # the text form of a date joined by & is its serial number", "                elif False:\n                    # the text form of a date joined by & is its serial number"),
+                                                  (ABS, "                elif isinstance(cell, datetime.datetime):\n                    # the text form of a date joined by & is its serial number", "                elif False:\n                    # the text form of a date joined by & is its serial number")],
+                                          'a date cell never meets the serial-number criterion again (the repaired defect)'),
+    'c11-min-of-nothing-raises': ('C11', [(CTX, "return min(numbers) if numbers else 0", "return min(numbers)"), (ABS, "return min(numbers) if numbers else 0", "return min(numbers)")],
+                                  'MIN of no numbers raises ValueError again (the repaired defect)'),
+    'c06-class-file-through-import-system': ('C06', [(SRC + 'object_loader.py', "    with open(module_path, 'rb') as file:\n        code = compile(file.read(), module_path, 'exec')\n    exec(code, module.__dict__)", "    spec.loader.exec_module(module)")],
+                                             'class files go through the import system again: a rewrite within one second is answered from stale bytecode (the repaired defect)'),
     'c01-amp-precedence': ('C01', [(SRC + 'translators/expression_token_translator.py', "AmpersandToken: 2,", "AmpersandToken: 3,")], '& binds as tightly as + -'),
     'c03-area-cells-not-registered': ('C03', [(SRC + 'translators/matrix_of_cell_identifiers_token_translator.py', "CellTranslator.translate(j, excel, context) for j in i",
                                                "(CellTranslator.translate(j, excel, context) if excel.fill_cell(j).column < 3 else context._get_cell_with_cell_preprocessor(j.uid)) for j in i")],
